@@ -34,7 +34,8 @@ CONSTS = [0, 1, 2, -1, 0.5, 2.0, True, numpy.float32(1.5), numpy.float64(0.25), 
 
 
 def np_dtype_of_static(t):
-    return numpy.dtype(graph.NPDT[str(t)])
+    # float128 / complex256 (upcast of a 64-bit value, numpy.longdouble) are known here only: the expression interpreters of the other checks do not model them
+    return numpy.dtype({"float128": numpy.longdouble, "complex256": numpy.clongdouble}.get(str(t)) or graph.NPDT[str(t)])
 
 
 def gen_program(rnd, nsym):
@@ -342,6 +343,10 @@ def directed_shapes():
         sh.append((f"{k}(a,const like b)", lambda ctx, a, b, k=k: (lambda t: t * t)(getattr(ctx, k)(a, ctx.constant(1.5, b))), 2))
     sh.append(("select-mixed", lambda ctx, a, b: ctx.select(ctx.absolute(a) < ctx.absolute(b), a, b), 2))
     sh.append(("select-mixed-referenced", lambda ctx, a, b: (lambda t: t + t * t)(ctx.select(ctx.absolute(a) < ctx.absolute(b), a, b)), 2))
+    # one literal 'like' operands of different width, each use referenced twice: equal-valued constants of different type must stay separate variables
+    for v_ in (2, 0.1, 1.5):
+        sh.append((f"literal-{v_}-like-both-widths", lambda ctx, a, b, v_=v_: (lambda ca, cb: ctx.select(a * ca + ca > a, b * cb + cb, b - cb))(ctx.constant(v_, a), ctx.constant(v_, b)), 2))
+        sh.append((f"literal-{v_}-like-both-widths-narrow-first", lambda ctx, a, b, v_=v_: (lambda cb, ca: ctx.select(b * cb + cb > b, a * ca + ca, a - ca))(ctx.constant(v_, b), ctx.constant(v_, a)), 2))
     sh.append(("upcast-referenced", lambda ctx, a: (lambda t: t * t + t)(ctx.upcast(a)), 1))
     sh.append(("downcast-referenced", lambda ctx, a: (lambda t: t * t + t)(ctx.downcast(a)), 1))
     sh.append(("downcast(upcast(a)*upcast(a))", lambda ctx, a: ctx.downcast(ctx.upcast(a) * ctx.upcast(a)), 1))
